@@ -710,6 +710,156 @@ Proof.
   unfold enable_objs. by rewrite Hq.
 Qed.
 
+(** * Every answer is determined by the current stack
+    (setting: hits return early; histories without [define]).  Every stored overlay is the one
+    obtained by applying, over the base table, the redefinitions of the contexts named by its key —
+    whatever combinations were activated before, in whatever order. *)
+Definition rdf (os0 : objs) (n : string) : list (string * udefv) :=
+  co_redefs (default dummy_obj (os0 !! n)).
+Definition redefs_of (os0 : objs) (k : ckey) : list (string * udefv) :=
+  concat (map (λ nd : string * params, rdf os0 nd.1) (rev k)).
+Definition overlay_of (cfg : regcfg) (base : utable) (rds : list (string * udefv)) : utable :=
+  (redefine_all cfg (lookup_layers [] base) ∅ rds).1.
+Definition rinv (os0 : objs) (cfg : regcfg) (base : utable) (s : rstate) : Prop :=
+  Forall (λ e, ce_redefs e = rdf os0 (ce_name e)) (rs_active s) ∧
+  (∀ k ov, alookup k (rs_ctx_units s) = Some ov → ov = overlay_of cfg base (redefs_of os0 k)) ∧
+  rs_base s = base.
+Definition redefs_kept (os0 os : objs) : Prop := ∀ n, (co_redefs <$> os !! n) = (co_redefs <$> os0 !! n).
+
+Lemma chain_redefs os0 chain :
+  Forall (λ e, ce_redefs e = rdf os0 (ce_name e)) chain →
+  concat (map ce_redefs (rev chain)) = redefs_of os0 (key_of chain).
+Proof.
+  intros H. unfold redefs_of, key_of. rewrite <- map_rev, map_map. simpl. f_equal.
+  apply map_ext_in. intros e He. apply in_rev, elem_of_list_In in He.
+  rewrite Forall_forall in H. by apply H.
+Qed.
+
+Lemma switch_rinv qk cfg os0 base s :
+  q_rebuild_on_hit qk = false → rinv os0 cfg base s → rinv os0 cfg base (switch qk cfg s).1.
+Proof.
+  intros Hq (Ha & Hu & Hb). unfold rinv. rewrite switch_active, switch_base.
+  split; [done|]. split; [|done].
+  unfold switch. rewrite Hq. destruct (has_redefs (rs_active s)); simpl; [|done].
+  destruct (alookup (key_of (rs_active s)) (rs_ctx_units s)) eqn:Hl; simpl; [done|].
+  intros k ov. destruct (decide (key_of (rs_active s) = k)) as [<-|Hne].
+  - rewrite alookup_ainsert_eq. intros [= <-]. unfold overlay_of. by rewrite Hb, (chain_redefs os0 _ Ha).
+  - rewrite alookup_ainsert_ne by done. apply Hu.
+Qed.
+
+Lemma default_redefs_eq (a b : option ctxobj) :
+  (co_redefs <$> a) = (co_redefs <$> b) → co_redefs (default dummy_obj a) = co_redefs (default dummy_obj b).
+Proof. destruct a, b; simpl; congruence. Qed.
+
+Lemma entries_rdf qk cfg os0 os s cs kw :
+  redefs_kept os0 os →
+  Forall (λ e, ce_redefs e = rdf os0 (ce_name e)) (enable_entries qk cfg os s cs kw).
+Proof.
+  intros Hk. unfold enable_entries. apply Forall_forall. intros e He.
+  apply elem_of_list_In, in_map_iff in He as (c & <- & _). simpl. unfold rdf.
+  apply default_redefs_eq. destruct (enable_objs_pure qk cfg os cs c) as [_ ->]. apply Hk.
+Qed.
+
+Lemma do_enable_rinv qk cfg os0 base os s cs kw :
+  q_rebuild_on_hit qk = false → redefs_kept os0 os → rinv os0 cfg base s →
+  rinv os0 cfg base (do_enable qk cfg os s cs kw).1.2.
+Proof.
+  intros Hq Hk Hr. rewrite do_enable_unfold. destruct (resolve os cs); [|done]. simpl.
+  set (ents := enable_entries qk cfg os s cs kw).
+  set (s1 := set_active (λ a, rev ents ++ a) s).
+  assert (rinv os0 cfg base s1) as Hr1.
+  { destruct Hr as (Ha & Hu & Hb). split; [|done]. simpl. apply Forall_app. split; [|done].
+    apply Forall_rev. by apply entries_rdf. }
+  pose proof (switch_rinv qk cfg os0 base s1 Hq Hr1) as Hr2.
+  destruct (switch qk cfg s1) as [s2 [e|]]; simpl in *; [|done].
+  destruct (q_partial_activation qk); simpl; [done|].
+  unfold rollback. apply switch_rinv; [done|].
+  destruct Hr2 as (Ha & Hu & Hb). split; [|split]; simpl; [by apply Forall_drop| |done].
+  intros k ov Hl. destruct (decide (key_of (rs_active s2) = k)) as [<-|Hne].
+  - by rewrite alookup_adelete_eq in Hl.
+  - rewrite alookup_adelete_ne in Hl by done. by apply Hu.
+Qed.
+
+Lemma do_disable_rinv qk cfg os0 base s n :
+  q_rebuild_on_hit qk = false → rinv os0 cfg base s → rinv os0 cfg base (do_disable qk cfg s n).1.
+Proof.
+  intros Hq (Ha & Hu & Hb). unfold do_disable. apply switch_rinv; [done|].
+  split; [|done]. simpl. destruct n; [by apply Forall_drop|constructor].
+Qed.
+
+Lemma step_redefs_kept qk cfg os0 os s o :
+  redefs_kept os0 os → redefs_kept os0 (step qk cfg (os, s) o).1.1.
+Proof.
+  intros Hk n. destruct (step_objs qk cfg os s o) as [->|[cs ->]]; [apply Hk|].
+  destruct (enable_objs_pure qk cfg os cs n) as [_ ->]. apply Hk.
+Qed.
+
+Lemma step_rinv qk cfg os0 base os s o :
+  q_rebuild_on_hit qk = false → not_define o = true → redefs_kept os0 os →
+  rinv os0 cfg base s → rinv os0 cfg base (step qk cfg (os, s) o).1.2.
+Proof.
+  intros Hq Hnd Hk Hr. destruct o as [cs kw|n|cs kw| | |q|name d]; simpl; try discriminate.
+  - pose proof (do_enable_rinv qk cfg os0 base os s cs kw Hq Hk Hr).
+    by destruct (do_enable qk cfg os s cs kw) as [[? ?] [?|]].
+  - pose proof (do_disable_rinv qk cfg os0 base s n Hq Hr).
+    by destruct (do_disable qk cfg s n) as [? [?|]].
+  - pose proof (do_enable_rinv qk cfg os0 base os s cs kw Hq Hk Hr).
+    by destruct (do_enable qk cfg os s cs kw) as [[? ?] [?|]].
+  - destruct (rs_frames s) as [|n fr]; [done|].
+    assert (rinv os0 cfg base (set_frames (λ _, fr) s)) as Hi by exact Hr.
+    pose proof (do_disable_rinv qk cfg os0 base _ (Some n) Hq Hi).
+    by destruct (do_disable qk cfg _ _) as [? [?|]].
+  - destruct (rs_frames s) as [|n fr]; [done|].
+    assert (rinv os0 cfg base (set_frames (λ _, fr) s)) as Hi by exact Hr.
+    pose proof (do_disable_rinv qk cfg os0 base _ (Some n) Hq Hi).
+    by destruct (do_disable qk cfg _ _) as [? [?|]].
+  - pose proof (probe_effect_fields qk cfg s q) as (Ha & _ & _ & Hu & _ & Hb). simpl in *.
+    destruct Hr as (H1 & H2 & H3). unfold rinv. rewrite Ha, Hu, Hb. done.
+Qed.
+
+Lemma run_rinv qk cfg os0 base st ops :
+  q_rebuild_on_hit qk = false → forallb not_define ops = true →
+  redefs_kept os0 st.1 → rinv os0 cfg base st.2 →
+  rinv os0 cfg base (run qk cfg st ops).2.
+Proof.
+  intros Hq. revert st. induction ops as [|o ops IH]; intros [os s] Hnd Hk Hr; [done|].
+  simpl in Hnd. apply andb_true_iff in Hnd as [Hn1 Hn2]. rewrite run_cons. unfold stepS.
+  pose proof (step_redefs_kept qk cfg os0 os s o Hk) as Hk'.
+  pose proof (step_rinv qk cfg os0 base os s o Hq Hn1 Hk Hr) as Hr'.
+  destruct (step qk cfg (os, s) o) as [[os' s'] r]. simpl in *. by apply IH.
+Qed.
+
+Lemma layers_determined os0 cfg base s :
+  inv s → rinv os0 cfg base s →
+  layers s = if has_redefs (rs_active s)
+             then [overlay_of cfg base (redefs_of os0 (key_of (rs_active s)))] else [].
+Proof.
+  intros (Hb & Hk & _) (_ & Hu & _). unfold layers, top_overlay. rewrite Hb.
+  destruct (has_redefs (rs_active s)); [|done].
+  destruct (Hk eq_refl) as [ov Hov]. rewrite Hov. simpl. by rewrite (Hu _ _ Hov).
+Qed.
+
+(** two histories (without [define]) that end with the same active chain give the same answers *)
+Lemma answers_determined_by_stack qk cfg os base ops1 ops2 q :
+  q_rebuild_on_hit qk = false →
+  forallb not_define ops1 = true → forallb not_define ops2 = true →
+  rs_active (run qk cfg (os, init_state base) ops1).2 = rs_active (run qk cfg (os, init_state base) ops2).2 →
+  q_base_cache_ctx_blind qk = false ∨ is_pbase q = false →
+  answer_of qk cfg (run qk cfg (os, init_state base) ops1).2 q
+  = answer_of qk cfg (run qk cfg (os, init_state base) ops2).2 q.
+Proof.
+  intros Hq H1 H2 Ha Hpq.
+  assert (∀ ops, forallb not_define ops = true →
+            inv (run qk cfg (os, init_state base) ops).2 ∧ rinv os cfg base (run qk cfg (os, init_state base) ops).2) as Hall.
+  { intros ops Hnd. split.
+    - apply run_inv; [done|apply inv_init].
+    - apply run_rinv; try done. split; [constructor|]. split; [|done]. intros k ov Hl. discriminate. }
+  destruct (Hall _ H1) as [Hi1 Hr1]. destruct (Hall _ H2) as [Hi2 Hr2].
+  apply answer_of_ext; try done.
+  - rewrite (layers_determined os cfg base _ Hi1 Hr1), (layers_determined os cfg base _ Hi2 Hr2). by rewrite Ha.
+  - destruct Hr1 as (_ & _ & ->). by destruct Hr2 as (_ & _ & ->).
+Qed.
+
 (** ... hence what one registry does cannot influence another registry sharing the contexts *)
 Local Arguments step : simpl never.
 Lemma wrun_cons qk cfgs w io ops : wrun qk cfgs w (io :: ops) = wrun qk cfgs (wstep qk cfgs w io).1 ops.
@@ -758,6 +908,7 @@ Definition ex_objs : objs := list_to_map [
             [("yard", UD (mkq 4 1) (u1 "foot")); ("foot", UD (mkq 2 1) (u1 "second")); ("minute", UD (mkq 20 1) (u1 "second"))] false);
   (* "laps" is both a unit and the plural of "lap": [_redefine] trips its assertion *)
   ("re", CO ∅ [] [("yard", UD (mkq 5 1) (u1 "foot")); ("laps", UD (mkq 3 1) (u1 "lap"))] false);
+  ("rf", CO ∅ [] [("minute", UD (mkq 45 1) (u1 "second")); ("yard", UD (mkq 7 2) (u1 "foot"))] false);
   ("rs", CO (list_to_map [("k", mkq 2 1)])
             [RL (c1 "[F]") (c1 "[L]") (mkq 1 1) (Some ("k", true)) (mkuc [("meter", mkq 1 1); ("hertz", mkq (-1) 1)])]
             [] false) ].
@@ -878,3 +1029,19 @@ Lemma failed_activation_nonvacuous :
   (step repaired ex_cfg st (OEnable ["re"] ∅)).2 = OFailed EAssert ∧
   active_names st.2 = ["ra"; "rb"].
 Proof. repeat split; vm_compute; reflexivity. Qed.
+
+(** both nesting orders of two contexts redefining the same unit, seen one after the other: the
+    second order answers like a registry that never saw the first, and the order matters *)
+Definition ex_hist1 : list op := [OEnable ["rb"] ∅; OEnable ["rf"] ∅; ODisable None; OEnable ["rf"] ∅; OEnable ["rb"] ∅].
+Definition ex_hist2 : list op := [OWithEnter ["rf"; "rb"] ∅].
+Definition p_min_s : probe := PConv (mkq 1 1) (c1 "minute") (c1 "second").
+Lemma answers_determined_nonvacuous :
+  rs_active (run repaired ex_cfg ex_st ex_hist1).2 = rs_active (run repaired ex_cfg ex_st ex_hist2).2 ∧
+  active_names (run repaired ex_cfg ex_st ex_hist1).2 = ["rb"; "rf"] ∧
+  answer_of repaired ex_cfg (run repaired ex_cfg ex_st ex_hist1).2 p_min_s = AQ (mkq 30 1) ∧
+  answer_of repaired ex_cfg (run repaired ex_cfg ex_st [OEnable ["rb"] ∅; OEnable ["rf"] ∅]).2 p_min_s = AQ (mkq 45 1).
+Proof.
+  split; [apply (proj1 (bool_decide_eq_true _)); vm_compute; reflexivity|].
+  split; [vm_compute; reflexivity|].
+  split; apply (proj1 (bool_decide_eq_true _)); vm_compute; reflexivity.
+Qed.
